@@ -24,6 +24,11 @@ ParentT == [z \in ZonesT |-> CASE z = "p" -> "root" [] z = "c" -> "p" [] z = "g"
 PubInitsT == {
   Pub(ZonesT, [z \in ZonesT |-> 7], [z \in ZonesT |-> NoDS]),
   Pub(ZonesT, [z \in ZonesT |-> IF z = "p" THEN 3 ELSE 7], [z \in ZonesT |-> IF z = "g" THEN 1 ELSE NoDS]) }
+ZonesB  == {"p", "c", "s"}
+ParentB == [z \in ZonesB |-> CASE z = "p" -> "root" [] z = "c" -> "p" [] z = "s" -> "p"]
+PubInitsB == {
+  Pub(ZonesB, [z \in ZonesB |-> 7], [z \in ZonesB |-> NoDS]),
+  Pub(ZonesB, [z \in ZonesB |-> IF z = "s" THEN 1 ELSE 7], [z \in ZonesB |-> IF z = "p" THEN 3 ELSE NoDS]) }
 ZonesOne == {"p"}
 ParentOne == [z \in ZonesOne |-> "root"]
 PubInitsOne == {Pub(ZonesOne, [z \in ZonesOne |-> 7], [z \in ZonesOne |-> NoDS]), Pub(ZonesOne, [z \in ZonesOne |-> 7], [z \in ZonesOne |-> 3])}
